@@ -104,7 +104,7 @@
 use std::{
     borrow::{Borrow, Cow},
     pin::Pin,
-    sync::{Arc, RwLock},
+    sync::{Arc, Mutex, RwLock},
     task::{Poll, ready},
 };
 
@@ -465,6 +465,9 @@ pub struct AddressLookupServices {
     last_data: Arc<RwLock<Option<EndpointData>>>,
     /// Optional filter applied to all data before publishing to any service.
     addr_filter: Arc<RwLock<Option<AddrFilter>>>,
+    /// Serializes [`Self::publish`] and [`Self::add_boxed`], so that every service, including
+    /// one added while a publish is in progress, is last given the data stored in `last_data`.
+    publish_lock: Arc<Mutex<()>>,
 }
 
 impl AddressLookupServices {
@@ -490,6 +493,7 @@ impl AddressLookupServices {
     pub fn add_boxed(&self, service: Box<dyn AddressLookup>) {
         #[cfg(iroh_verif)]
         crate::verif_hooks_lookup::pause("add.read");
+        let _guard = self.publish_lock.lock().expect("poisoned");
         {
             let data = self.last_data.read().expect("poisoned");
             if let Some(data) = &*data {
@@ -527,6 +531,7 @@ impl AddressLookupServices {
         };
         #[cfg(iroh_verif)]
         crate::verif_hooks_lookup::pause("pub.begin");
+        let _guard = self.publish_lock.lock().expect("poisoned");
         let services = self.services.read().expect("poisoned");
         for service in &*services {
             #[cfg(iroh_verif)]
